@@ -54,6 +54,15 @@ pub struct Ep {
 }
 
 impl Ep {
+    /// The endpoint's tags, a function of its id (the Lean drivers compute the same):
+    /// none for ids = 3 mod 4, else the single tag `g<id mod 5>`.
+    pub fn tags(&self) -> Vec<String> {
+        if self.id % 4 == 3 {
+            vec![]
+        } else {
+            vec![format!("g{}", self.id % 5)]
+        }
+    }
     pub fn enc(&self) -> String {
         format!(
             "{};{};{};{};{}",
@@ -127,6 +136,7 @@ pub fn real_endpoint(e: &Ep) -> Option<ApiEndpoint<StubContext>> {
         r,
     );
     ep.visible = e.visible;
+    ep.tags = e.tags();
     // one parameter per distinct name; for a repeated name the last occurrence
     // decides the declared type, as `validate_named_parameters` collects the
     // template's variables into a map (so that the router's own duplicate
@@ -299,7 +309,13 @@ pub fn doc_ops(api: &ApiDescription<StubContext>, version: &str) -> (Vec<(String
             if let Some(item) = item.as_object() {
                 for (method, op) in item {
                     if let Some(id) = op.get("operationId").and_then(|x| x.as_str()) {
-                        ops.push((path.clone(), method.clone(), id.to_string()));
+                        // operation id, then the operation's own tags
+                        let tags: Vec<String> = op
+                            .get("tags")
+                            .and_then(|t| t.as_array())
+                            .map(|a| a.iter().filter_map(|x| x.as_str().map(|s| s.to_string())).collect())
+                            .unwrap_or_default();
+                        ops.push((path.clone(), method.clone(), format!("{}:{}", id, tags.join("+"))));
                     }
                 }
             }
@@ -307,6 +323,15 @@ pub fn doc_ops(api: &ApiDescription<StubContext>, version: &str) -> (Vec<(String
     }
     ops.sort();
     (ops, bytes)
+}
+
+/// Names in the document's top-level `tags` array, in document order.
+pub fn doc_tags(bytes: &[u8]) -> Vec<String> {
+    let json: serde_json::Value = serde_json::from_slice(bytes).unwrap();
+    json.get("tags")
+        .and_then(|t| t.as_array())
+        .map(|a| a.iter().filter_map(|x| x.get("name").and_then(|n| n.as_str()).map(|s| s.to_string())).collect())
+        .unwrap_or_default()
 }
 
 /// All `$ref` strings in a JSON value.
